@@ -44,6 +44,7 @@ import (
 	"github.com/restic/restic/internal/global"
 	"github.com/restic/restic/internal/repository/crypto"
 	"github.com/restic/restic/internal/restic"
+	"github.com/restic/restic/internal/ui/progress"
 	kit "github.com/restic/restic/internal/verifkit"
 	"github.com/restic/restic/internal/verifkit/repokit"
 )
@@ -55,6 +56,11 @@ type c34Repo struct {
 	Snaps      int
 	Files      int
 	Big        bool
+	// DupOrig/DupCopy: every blob of pack DupOrig was stored a second time (real uploader,
+	// storeDuplicate) into pack(s) DupCopy - added after seeded change C34-1 (a blob stored in two
+	// damaged packs that are both named in one repair run must survive)
+	DupOrig string
+	DupCopy []string
 }
 
 type c34Damage struct {
@@ -118,10 +124,20 @@ func c34RunRepo(t *testing.T, rec *kit.Rec, c c34Repo, perRepo int, rng *kit.RNG
 		}
 	}
 	restoreIdx() // the repairs run with the default index size
+	if c.R%2 == 1 {
+		orig, copies, err := c34Duplicate(e, rng)
+		if err != nil {
+			rec.Violation("setup-duplicate-failed", err.Error(), c)
+			return
+		}
+		c.DupOrig, c.DupCopy = orig, copies
+		rec.Count("repos_with_duplicated_pack", 1)
+	}
 	e.ReportMonitors(c)
 	s0 := e.vbe.Snapshot().WithoutLocks()
 	a0 := repokit.NewAudit(e.key, s0)
 	if _, errs := a0.SnapshotManifests(); len(errs) > 0 || len(a0.Snaps) != c.Snaps {
+		_ = errs
 		rec.Violation("setup-manifest", fmt.Sprintf("snaps=%d errs=%v", len(a0.Snaps), errs), c)
 		return
 	}
@@ -243,6 +259,21 @@ func c34RunCase(rec *kit.Rec, e *vEnv, s0 kit.State, a0 *repokit.Audit, cs *c34C
 	nDam := 1
 	if rng.Chance(1, 4) && len(packIDs) > 2 {
 		nDam = 2
+	}
+	if cs.Repo.DupOrig != "" && len(cs.Repo.DupCopy) > 0 && rng.Chance(1, 2) {
+		// damage both the original pack and (one of) its duplicate(s), name both
+		want := []string{cs.Repo.DupOrig, cs.Repo.DupCopy[rng.Intn(len(cs.Repo.DupCopy))]}
+		for w, name := range want {
+			for i, id := range packIDs {
+				if id.String() == name {
+					packIDs[w], packIDs[i] = packIDs[i], packIDs[w]
+				}
+			}
+		}
+		if packIDs[0].String() == want[0] && packIDs[1].String() == want[1] {
+			nDam = 2
+			rec.Count("cases_damaging_both_copies_of_a_pack", 1)
+		}
 	}
 	named := restic.NewIDSet()
 	for i := 0; i < nDam; i++ {
@@ -750,4 +781,62 @@ func c34Churn(dir string, round int, rng *kit.RNG) error {
 		return err
 	}
 	return nil
+}
+
+// c34Duplicate stores every blob of one pack a second time (real uploader, storeDuplicate) and
+// returns the original pack and the new pack(s).
+func c34Duplicate(e *vEnv, rng *kit.RNG) (string, []string, error) {
+	a, err := e.Audit()
+	if err != nil {
+		return "", nil, err
+	}
+	var cands restic.IDs
+	for id, pi := range a.Packs {
+		if pi.HeaderErr == nil && len(pi.Blobs) > 1 {
+			cands = append(cands, id)
+		}
+	}
+	if len(cands) == 0 {
+		return "", nil, fmt.Errorf("no pack to duplicate")
+	}
+	sort.Sort(cands)
+	p := cands[rng.Intn(len(cands))]
+	_, err = vRun(e.gopts, func(ctx context.Context, gopts global.Options) error {
+		printer := progress.NewTerminalPrinter(false, gopts.Verbosity, gopts.Term)
+		ctx, repo, unlock, err := openWithAppendLock(ctx, gopts, false, printer)
+		if err != nil {
+			return err
+		}
+		defer unlock()
+		if err := repo.LoadIndex(ctx, printer); err != nil {
+			return err
+		}
+		return repo.WithBlobUploader(ctx, func(ctx context.Context, up restic.BlobSaverWithAsync) error {
+			for _, pb := range a.Packs[p].Blobs {
+				buf, err := repo.LoadBlob(ctx, pb.BlobHandle, nil)
+				if err != nil {
+					return err
+				}
+				if _, _, _, err := up.SaveBlob(ctx, pb.Type, buf, pb.ID, true); err != nil {
+					return err
+				}
+			}
+			return nil
+		})
+	})
+	if err != nil {
+		return "", nil, err
+	}
+	a2, err := e.Audit()
+	if err != nil {
+		return "", nil, err
+	}
+	var copies []string
+	for id := range a2.Packs {
+		if _, ok := a.Packs[id]; !ok {
+			copies = append(copies, id.String())
+		}
+	}
+	sort.Strings(copies)
+	return p.String(), copies, nil
 }
